@@ -63,13 +63,13 @@ func (c *vScript) Read(p []byte) (int, error) {
 	c.pos += k
 	return k, nil
 }
-func (c *vScript) Write(b []byte) (int, error)        { return len(b), nil }
-func (c *vScript) Close() error                       { return nil }
-func (c *vScript) LocalAddr() net.Addr                { return &net.TCPAddr{IP: net.IPv4(127, 0, 0, 1), Port: 1} }
-func (c *vScript) RemoteAddr() net.Addr               { return &net.TCPAddr{IP: net.IPv4(127, 0, 0, 1), Port: 2} }
-func (c *vScript) SetDeadline(time.Time) error        { return nil }
-func (c *vScript) SetReadDeadline(time.Time) error    { return nil }
-func (c *vScript) SetWriteDeadline(time.Time) error   { return nil }
+func (c *vScript) Write(b []byte) (int, error)      { return len(b), nil }
+func (c *vScript) Close() error                     { return nil }
+func (c *vScript) LocalAddr() net.Addr              { return &net.TCPAddr{IP: net.IPv4(127, 0, 0, 1), Port: 1} }
+func (c *vScript) RemoteAddr() net.Addr             { return &net.TCPAddr{IP: net.IPv4(127, 0, 0, 1), Port: 2} }
+func (c *vScript) SetDeadline(time.Time) error      { return nil }
+func (c *vScript) SetReadDeadline(time.Time) error  { return nil }
+func (c *vScript) SetWriteDeadline(time.Time) error { return nil }
 
 // wrappers used by the Wrap operations
 type vBufConn struct {
